@@ -1,5 +1,5 @@
 @unit cw3math
-@shim core.rs cw_utils.rs cw3deps.rs
+@shim core.rs cw_utils.rs std_more.rs cw3deps.rs
 @properties C03 C04
 @strict
 
